@@ -7,7 +7,7 @@
     * dependencies need NOT exist and the graph need NOT be acyclic: the theorems hold without;
     * cases of the persistence stream hold their rows in strictly increasing id order. *)
 From V.Lib Require Import Base.
-From V.C18 Require Import Model Spec Corr.
+From V.C18 Require Import Model Spec Store StoreFull Corr.
 Local Open Scope Z_scope.
 
 Fixpoint nodupb (l : list Z) : bool :=
@@ -59,4 +59,8 @@ Fixpoint increasing (l : list Z) : bool :=
 Definition wf_case (c : case) : bool :=
   let '(Case pre ev post _ p) := c in
   wf_state pre && wf_event ev
-  && match p with PNone => true | PRows _ _ _ _ _ _ _ _ _ => increasing (map t_id (m_txs post)) end.
+  && match p with
+     | PNone => true
+     | PFull _ _ _ _ pay pl _ =>
+       increasing (map t_id (m_txs post)) && Nat.eqb (length pay) (length (m_txs post)) && plan_shape_ok (pl_layers pl)
+     end.
